@@ -151,8 +151,10 @@ class G:
 
 
 def generate(rng, tier):
-    placement = rng.choice(["top", "top", "call", "fn", "fnret", "afn"])
-    g = G(rng, allow_vars=placement in ("top", "call"))
+    placement = rng.choice(["top", "top", "call", "fn", "fnret", "afn", "fng", "fnn"])
+    # fng: inside a function that declares the variables global; fnn: inside a nested function that declares them
+    # nonlocal (handler variables of the same names must still be scoped to their handlers)
+    g = G(rng, allow_vars=placement in ("top", "call", "fng", "fnn"))
     # inside a coroutine a `with` may mix synchronous and asynchronous managers (Hy splits it into nested statements)
     g.allow_async = placement == "afn"
     depth = rng.choice([1, 2, 2, 3])
@@ -170,7 +172,7 @@ def generate(rng, tier):
     if r < 0.12:
         # sibling handlers: an earlier handler names v, later handlers / else / finally / the code after the try
         # read or assign the OUTER variable of the same name
-        placement = rng.choice(["top", "call"])
+        placement = rng.choice(["top", "call", "fng", "fnn"])
         g.allow_vars = True
         v = rng.choice(["e", "x"])
 
@@ -187,7 +189,7 @@ def generate(rng, tier):
         post = [["get", v]]
     elif r < 0.24:
         # a try that is the value of an assignment to v and whose clauses read (the old) v; handlers may be empty
-        placement = rng.choice(["top", "call"])
+        placement = rng.choice(["top", "call", "fng", "fnn"])
         g.allow_vars = True
         v = rng.choice(["x", "w", "e"])
 
@@ -284,6 +286,13 @@ def program(desc):
         return init + (pre + "\n" if pre else "") + f"(setv RESULT (F 1 {hy_src(root)} 2))\n" + (post + "\n" if post else "") + "RESULT\n", root
     if pl == "fn":
         return init + f"((fn [] {pre} (setv r {hy_src(root)}) {post} r))\n", root
+    if pl == "fng":
+        return init + f"((fn [] (global x y e w) {pre} (setv r {hy_src(root)}) {post} r))\n", root
+    if pl == "fnn":
+        return (init + "(defn outer []\n  (setv x 0 y 0 e \"outer-e\" w 0)\n"
+                f"  (defn inner [] (nonlocal x y e w) {pre} (setv r {hy_src(root)}) {post} r)\n"
+                "  (try (inner) (finally (setv (get (globals) \"SNAP\") [x y e w]))))\n"
+                "(try (setv RESULT (outer)) (finally (setv [x y e w] SNAP)))\nRESULT\n"), root
     if pl == "afn":
         # a coroutine driven to completion by the harness (no awaitable in it ever suspends)
         return init + f"(defn :async amain [] {pre} (setv r {hy_src(root)}) {post} r)\n(DRIVE (amain))\n", root
@@ -544,7 +553,7 @@ def run_ref(desc, root, plan):
             if pl == "call":
                 v = [1, v, 2]
             ref.body(desc["post"])
-        elif pl in ("fn", "afn"):
+        elif pl in ("fn", "afn", "fng", "fnn"):
             v = ref.ev(root)
             ref.body(desc["post"])
         else:
